@@ -13,6 +13,9 @@ Families (all coordinates are small integers, node sides on a coarse lattice so 
           usage of libtopology/tests/simple_bend.cpp): a node is dragged into a straight edge (or across two edges) so that the edge has to
           bend round its corner, then dragged back (in one or several steps, possibly beyond where it came from), finally every node is
           asked back to where it started: bends made during the session must straighten again; lattice-aligned and generic coordinates
+  comb    "many events in one pass": 1..3 movers beside a bundle of 20..80 near-parallel edges (parallel / fan out of one hub / alternating
+          direction), each asked across c of them in ONE ColaTopologyAddon::moveTo (2 events per mover and edge; two thirds of the scenes need more
+          than the addon's budget of 100 solve() iterations); generic coordinates; MOVE, MOVE + the same MOVE again, MOVE + other axis, or LAYOUT with Locks
 The generators only emit start states that pass a Python port of the checker (the extracted checker re-validates `before`)."""
 
 TR, BR, BL, TL, CEN = 0, 1, 2, 3, 4
@@ -626,15 +629,15 @@ def gen_comb(rng, tag):
     with alpha = 1.  Generic coordinates (eighths, no two node sides of different nodes on one scan line).  ops: MOVE (sometimes followed by the
     same MOVE again = the drag goes on in the next frame, or a MOVE in the other axis) or LAYOUT with a Lock on the movers (ConstrainedFDLayout::run
     -> setPosition -> moveTo of the addon)."""
-    layout = rng.chance(1, 5)                        # through ConstrainedFDLayout::run: the drag has to outlast moveTo's budget AND that of applyForcesAndConstraints
-    K = rng.range(40, 80) if layout else rng.range(20, 80)
+    layout = rng.chance(1, 8)                        # through ConstrainedFDLayout::run: the drag has to outlast moveTo's budget AND that of applyForcesAndConstraints
+    K = rng.range(34, 48) if layout else rng.range(20, 80)   # (after a layout run every coordinate is a full 53-bit dyadic: the exact checker is ~10x slower per state)
     variant = rng.choice(['parallel', 'parallel', 'parallel', 'fan', 'alternate'])
     sp = rng.range(11, 24)                           # spacing of the edges
     H = rng.range(120, 260)                          # y-span
     slant = rng.range(-8, 8) + rng.range(0, 7) / 8.0
     e8 = lambda: rng.range(0, 7) / 8.0
     nodes, edges = [], []
-    nm = rng.choice([2, 3, 3]) if layout else rng.choice([1, 1, 1, 2, 2, 3])
+    nm = 3 if layout else rng.choice([1, 1, 1, 2, 2, 3])
     # movers first (ids 0..nm-1): disjoint y-bands inside (20, H - 20)
     band = (H - 40.0) / nm
     from_right = rng.chance(1, 2)
